@@ -13,23 +13,35 @@
      (3) the semantic corollaries obtained from QTheory.EffectsT (non-interference, frame,
          seeded runs), for EVERY adaptive history of public operations, every value type and
          every environment of function bodies conforming to the table  (exact <lemma>).
-   Finite domain of (1),(2): the functions listed in the generated table.                      *)
+   Finite domain of (1),(2): the functions listed in the generated table.
+
+   TRUST: (1) and (2) are facts about the GENERATED EFFECT GRAPH.  The semantic theorems (3) are conditional on
+   [bodies_ok V env table] — "every function body performs only the atoms and calls listed in its record" — which
+   is exactly the soundness of the translator for the Python sources.  Nothing in Coq discharges that hypothesis:
+   translator soundness is TRUSTED (conservative by construction, fail closed) and SAMPLED dynamically by
+   harness/checks/c14.py (sources actually hit <= predicted atoms; parameter bytes around read-only operations;
+   bit-identity of seeded runs).  "A different seed gives different draws" is not a theorem (dynamic only).       *)
 From Coq Require Import List Bool PArith.
 From QModel Require Import Effects.
-From QTheory Require Import EffectsT.
+From QTheory Require Import EffectsT EffectsCompleteT.
 From QGen Require Import EffectsGen.
 Import ListNotations.
 
 (* ------------------------------------------------------------------ (1) computed on the generated table *)
-Lemma C14_check_table_wellformed :
-  ids_from 1%positive table = true /\
-  forallb (fun cr => match snd cr with [] => false | _ => true end) ops_by_class = true.
-Proof. vm_compute. split; reflexivity. Qed.
+(* ids are 1..n in table order.  (That every class list is non-empty is NOT demanded: moving or renaming a function
+   does not touch the property; the check reports empty classes in its evidence only.) *)
+Lemma C14_check_table_wellformed : ids_from 1%positive table = true.
+Proof. vm_compute. reflexivity. Qed.
 Print Assumptions C14_check_table_wellformed.
 
 Lemma C14_check_no_foreign_source : ops_ok foreign_source table ops_public = true.
 Proof. vm_compute. reflexivity. Qed.
 Print Assumptions C14_check_no_foreign_source.
+
+(* only the seeding operation (set_random_seed) may re-seed / overwrite the state of a torch generator *)
+Lemma C14_check_no_reseed_outside_seeding : ops_ok foreign_or_reseed table ops_unseeded = true.
+Proof. vm_compute. reflexivity. Qed.
+Print Assumptions C14_check_no_reseed_outside_seeding.
 
 Lemma C14_check_read_only : ops_ok foreign_or_write table ops_read_only = true.
 Proof. vm_compute. reflexivity. Qed.
@@ -46,6 +58,12 @@ Theorem C14_public_operations_reach_no_foreign_source :
   forall r, In r table -> fid r = y -> forall a, In a (fatoms r) -> foreign_source a = false.
 Proof. exact (ops_ok_sound table foreign_source ops_public C14_check_no_foreign_source). Qed.
 Print Assumptions C14_public_operations_reach_no_foreign_source.
+
+Theorem C14_only_the_seeding_operation_reseeds :
+  forall x, In x ops_unseeded -> forall y, reachable table x y ->
+  forall r, In r table -> fid r = y -> forall a, In a (fatoms r) -> foreign_or_reseed a = false.
+Proof. exact (ops_ok_sound table foreign_or_reseed ops_unseeded C14_check_no_reseed_outside_seeding). Qed.
+Print Assumptions C14_only_the_seeding_operation_reseeds.
 
 Theorem C14_read_only_operations_reach_no_parameter_write :
   forall x, In x ops_read_only -> forall y, reachable table x y ->
@@ -132,13 +150,14 @@ Theorem C14_closure_is_sound :
 Proof. exact closure_sound. Qed.
 Print Assumptions C14_closure_is_sound.
 
-(* TARGET (not proved): forall tbl roots, closure_atoms tbl roots <> None
-     — i.e. the depth-first search of model/Effects.v, run with fuel = S (length tbl), always returns a set that
-     contains the roots and is closed under callees (every recursion level adds a new id, so the depth never
-     exceeds the number of ids).  Missing: the completeness argument of the search (a counting measure over the
-     trie set).  Soundness does not depend on it: closure_atoms re-checks closedness of what the search returned
-     and answers None otherwise (C14_closure_is_sound holds for every fuel), and the lemma below shows that on the
-     generated table the answer is never None. *)
+(* The search never gives up (proved for all tables in QTheory.EffectsCompleteT: with fuel S (length tbl) the
+   depth-first search returns a set that contains the roots and is closed, so the self-check of closure_atoms
+   always succeeds).  Hence roots_ok / ops_ok answer false only because of a bad atom that really is reachable. *)
+Theorem C14_closure_is_complete : forall tbl roots, closure_atoms tbl roots <> None.
+Proof. exact closure_atoms_complete. Qed.
+Print Assumptions C14_closure_is_complete.
+
+(* the same fact, by computation, on the generated table (kept from before the general proof existed) *)
 Lemma C14_closure_defined_on_generated_table_partial :
   forallb (fun x => match closure_atoms table [x] with Some _ => true | None => false end) ops_public = true.
 Proof. vm_compute. reflexivity. Qed.
